@@ -123,6 +123,27 @@ def e2_e3(ctx, fx, U):
             if m is not None and m["bb"] != b:
                 okc = False
         chk(ctx, "C08.E3", fn, line, "name-not-present", okc, "insert dominated by contains_key(out, name)==false with no intervening mutation of the map", "a disclosed member may overwrite an existing member of the same name (no DuplicateKey check on every path)")
+    # E3 (completeness of the collision check): the check only sees members already in the map under construction, so every plain member
+    # must have been copied before any disclosed member is applied: no copy-insert is reachable after the place where digests are applied
+    for (fn, b, n, lk) in U.obj_sinks:
+        recv = peel(n.kids[0])
+        sites = []
+        if recv.kind == "param":
+            for cf in U.fns:
+                for b2, t2 in cf.calls():
+                    if t2.get("resolved") == fn.name and cf.name != fn.name:
+                        sites.append((cf, b2))
+        else:
+            sites.append((fn, b))
+        for (cf, b2) in sites:
+            after = cfg.reach_strict(cf, b2)
+            late = [bb3 for (f3, bb3, n3) in U.copy_sinks if f3 is cf and bb3 in after]
+            what = "collision-check-complete"
+            if late:
+                ctx.finding("C08.E3", cf, what, "plain members are still copied into the object after disclosed members were applied (line %s): a disclosed member whose name equals a later plain member "
+                            "passes the DuplicateKey check and is then silently overwritten" % cf.term(late[0]).get("line"), line=cf.term(b2).get("line"))
+            else:
+                ctx.ok("C08.E3", cf, what, "all plain members are copied before the `_sd` digests are applied: the name-collision check sees every plain member", line=cf.term(b2).get("line"))
     for (fn, e, inner, lk) in U.elem_sinks:
         line = e["line"]
         vrefs = elem_refs(fx, fn, inner)
